@@ -3,26 +3,26 @@
 import json, os
 root = os.path.dirname(os.path.dirname(os.path.abspath(__file__)))
 WHAT = {
- "C01": "1 895 names and 69 103 strings x 3 option sets; 40x40 pairs x 32 option sets; 24^3 triples; trees with 1-4 leaves, depth <= 3 (up to 15 146 shapes); nesting to 255; wide containers (2..1000 siblings of every atom); ~5 000 numbers by digit structure (1-19 significant digits at every decimal-point position, neighbours of 2^53 and 2^63)",
- "C02": "all programs of <= 1 operation x dev <= 1 over the 9 x 2 x 2 x 4 configuration matrix; <= 2 operations x dev <= 1 on 14 representative configurations (all four ciphers); <= 3 operations on 4; operations include a 300-member object stream; every argument incl. the byte slices given to Write is compared after Close",
+ "C01": "1 895 names and 69 103 strings x 3 option sets; 40x40 pairs x 32 option sets; 24^3 triples; trees with 1-4 leaves, depth <= 3 (up to 15 146 shapes); nesting to 255; wide containers (2..1000 siblings of every atom); 21 x 21 pairs of long strings (1..1100 bytes, hex / literal / escaped, no common prefix); ~5 000 numbers by digit structure (1-19 significant digits at every decimal-point position, neighbours of 2^53 and 2^63)",
+ "C02": "all programs of <= 1 operation x dev <= 1 over the 9 x 2 x 2 x 4 configuration matrix; <= 2 operations x dev <= 1 on a non-seekable 1.7 and a seekable RC4 1.4 configuration; <= 2 operations x dev 0 on 4 + 2 human-readable + encrypted representatives; operations include Put of a stream object while a stream is open, a 300-member object stream, generation 65535, a multi-KiB escaped-name value; every argument incl. the byte slices given to Write is compared after Close",
  "C03": "the same programs, judged by ref/pdffile + ref/stdsec + independent codecs",
- "C04": "81 x 3 one-revision histories x 421 renderings (all knob pairs); 2 rev x 2 obj x 9 kind vectors x 22 renderings; 2 rev x 4 obj and 3 rev x 2 obj x all kind vectors x {default, objstm}; trailer entries of newest and of older revisions; 4 bodies x 11 length defects x 21 renderings; every body length 0..2200 x 4 defects x 2 EOLs",
- "C05": "4 seeds x every single mutation of the menu x 4 open modes; crafted hostile structures (9 recursive structures x 36 link patterns x sizes 1..24 and up to 1000); one stream per filter chain of length <= 3 x 5 payloads; all pairs of link rewirings on the first seed",
- "C06": "predictor grid, LZW boundaries, CCITT parameter product with all small bitmaps, 166 chains, chunkings (notes/C06.md)",
- "C07": "the C06 spaces restricted to algorithms with a second implementation, both directions",
- "C08": "306 seeds, 433 k byte mutations, 9.5 k header claims, 630 bombs, 47 k parameter-dictionary corruptions, 95 k chains of length <= 2, all 11^3 chains of length 3 with valid / multi-layer-bomb / bad-parameter bodies, 39 k LZW table-state bodies",
+ "C04": "81 x 3 one-revision histories x 421 renderings (all knob pairs); 2 rev x 2 obj x 9 kind vectors x 22 renderings; 2 rev x 4 obj and 3 rev x 2 obj x all kind vectors x {default, objstm}; the 2- and 3-revision histories again with free entries of generation 65535; trailer entries of newest and of older revisions; 4 bodies x 11 length defects x 21 renderings; every body length 0..2200 x 4 defects x 2 EOLs",
+ "C05": "4 seeds x every single mutation of the menu x 4 open modes; crafted hostile structures (9 recursive structures x 36 link patterns x sizes 1..24 and up to 1000); one stream per filter chain of length <= 3 x 5 payloads; 11 k LZW table-state streams; crafted cross-reference wirings (/Prev, /XRefStm over <= 8 sections, every integer token of the sections) and /Length wirings (2 object streams, <= 2 stream nodes inside or outside them), each also behind 1..1000 bytes of prefix; all pairs of link rewirings on the first seed",
+ "C06": "predictor grid, LZW boundaries, CCITT parameter product with all small bitmaps, 166 chains, chunkings (every cut into <= 3 writes through an overwritten transfer buffer; notes/C06.md)",
+ "C07": "the C06 spaces restricted to algorithms with a second implementation, both directions; chunked writes (every cut into <= 3 writes) judged by the independent decoders",
+ "C08": "306 seeds, 433 k byte mutations, 9.5 k header claims, 630 bombs, 47 k parameter-dictionary corruptions, 95 k chains of length <= 2, all 11^3 chains of length 3 with valid / multi-layer-bomb / bad-parameter bodies, 39 k LZW table-state bodies, 226 k JBIG2 segment programs",
  "C09": "14 x 14 password pairs x 9 versions x 3 metadata modes x 15 try-passwords; 128 permission sets x 9 versions x 3 pairs; 2 bounds x 14 boundary passwords x 3 roles x 9 versions x 71 tries; 361 stream/string lengths x 4 write x 5 read chunkings x 9 versions",
  "C10": "Writer files judged by ref/stdsec (password pairs x versions x metadata x IDs x permissions x (number, generation) pairs x 271 write orders), reference files opened by the Reader (11 handler configurations)",
- "C11": "9 spaces of source graphs (incl. stale-generation references, both spellings of one-element filter chains) x BFS over Copy/CopyReference/Redirect programs of <= 3 calls x encryption pairs",
+ "C11": "source graphs (incl. stale-generation references, both spellings of one-element filter chains, hand-made direct values with nil entries) x BFS over Copy/CopyReference/Redirect programs of <= 3 calls x encryption pairs",
  "C12": "4.0 M range sets (3.25 M valid), every string over the induced partition",
  "C13": "7^6 CID maps and 10^5 ToUnicode maps per window x 10 windows x code spaces x chain configurations; 17^5 ToUnicode maps (multi-rune relations) on 3 windows; hand-built files; 1.1 M file round trips",
  "C14": "59 fonts x strings of length <= 3 over 9 characters x 4 versions, interleavings, fill-ups, retexts",
- "C15": "operators x operand tuples, adjacency pairs, triples, 19 850 inline-image data strings, splits; Builder BFS to depth 6/5",
+ "C15": "operators x operand tuples, adjacency pairs, triples, 19 850 inline-image data strings, splits, 5 866 reals by digit structure; Builder BFS to depth 6/5, every accepted history again with Harvest before one and two of its calls",
  "C16": "6 BFS profiles over page-tree writer histories",
- "C17": "all 2^14 key subsets x 2 entry points, number subsets, 1 281 size cases incl. 262 145",
+ "C17": "all 2^14 key subsets x 2 entry points, number subsets, 1 281 size cases incl. 262 145; 2 828 writer-context cases (trees inside open streams, two trees, nested writes); 510 k reader programs (Lookup / All / next / abandon, <= 3 operations) on one FromFile",
  "C18": "27 scenarios; 2 threads unbounded, 3 threads preemption bound 2 (thorough: unbounded); race pass 300 x each scenario",
- "C19": "19 documents x 4 scenarios (each with a retry pass on the same Reader and Extractor) x every ReadAt index x 3 fault modes x 2 error kinds; write programs x every sink call x {fail from k, fail only k}",
- "C20": "every prefix of every document and 33 xref damages each",
+ "C19": "22 documents (incl. object-stream-heavy, AES, ciphertexts ending in CR/LF, hand-built indirect /DecodeParms and wrong /Length) x 4 scenarios (each with a caching Decode and a retry pass on the same Reader and Extractor) x every ReadAt index x 3 fault modes x 2 error kinds; write programs x every sink call x {fail from k, fail only k}",
+ "C20": "every prefix of every document and 33 xref damages each; aligned documents: 24 small objects (10 streams with indirect /Length) behind a pad of every length 0..1100, every cut after the pad",
 }
 def fmt(n):
     if n is None: return "-"
